@@ -91,7 +91,8 @@ pub fn check_cmap(cx: &mut Ctx, rng: &mut Rng, case: &Case, out: &[u8]) {
     let src = &case.src;
     let nreq = case.ids.len();
     let sel = match &src.cmap {
-        Some(s) if s.kind != EncKind::Big5 => s,
+        // Big5 sources are judged when generated (every mapped code is in the independent Big5 sample)
+        Some(s) if s.kind != EncKind::Big5 || src.generated => s,
         _ => {
             cx.class("source:no-judgeable-cmap");
             return;
@@ -290,6 +291,12 @@ pub fn check_cmap(cx: &mut Ctx, rng: &mut Rng, case: &Case, out: &[u8]) {
         Kind::Cff => "source:cff",
         Kind::Cff2 => "source:cff2",
     });
+    if sel.kind == EncKind::Big5 && sel.format == 2 {
+        cx.class("source:big5-format2");
+        if src.big5_holes.iter().any(|(_, d)| case.ids.contains(d)) {
+            cx.class("big5:hole-with-nonzero-iddelta-and-retained-delta-glyph");
+        }
+    }
     if component_chars > 0 {
         cx.class("component-only-char-mapped");
     }
@@ -349,6 +356,14 @@ impl Prop for C08 {
         // the Prince API returns a bare CFF table for CFF sources: no cmap to judge
         if case.src.kind != Kind::TrueType {
             case.op = Op::Subset;
+        }
+        // Big5 / format 2 sources: often retain the glyph whose number is the idDelta of a sub-header
+        // that has holes (zero entries must stay unmapped, they must not become that glyph)
+        if !case.src.big5_holes.is_empty() && rng.chance(2, 3) {
+            let d = rng.pick(&case.src.big5_holes).1;
+            if !case.ids.contains(&d) && (d as usize) < case.src.num_glyphs && case.ids.len() < 400 {
+                case.ids.push(d);
+            }
         }
         let out = match run_op(cx, &case) {
             None => return,
